@@ -348,6 +348,20 @@ def _usage_facts(tree):
     return {"assigns": assigns, "pct": pct, "out": out}
 
 
+def _open_text_newline(tree):
+    """does open_text() read with universal newlines (no newline= / newline=None) or with newline='\\n'?"""
+    fn = L.find_def(tree, "open_text")
+    calls = [c for c in L.calls_in(fn, "open") if L.dotted(c.func) == "open"]
+    if len(calls) != 1:
+        raise NotRecognised("open_text: expected exactly one open() call")
+    kw = {k.arg: k.value for k in calls[0].keywords}
+    if "newline" not in kw or L.const(kw["newline"]) is None:
+        return True
+    if L.const(kw["newline"]) == "\n":
+        return False
+    raise NotRecognised("open_text: newline=%r" % (L.const(kw["newline"]),))
+
+
 def _usage_percent_shape(tree):
     fn = L.find_def(tree, "usage_percent")
     body = [s for s in fn.body if not (isinstance(s, ast.Expr) and isinstance(s.value, ast.Constant))]
@@ -393,6 +407,8 @@ def facts(snap, F):
               "names in the tuple stored in retdict[name], in order")
     F.try_add("netNameStrip", "Option (List Nat)", lambda: L.lean_opt(net()["strip"], lambda cs: L.lean_list(cs, L.lean_nat)),
               "`name = line[:colon].strip(<chars>)`: none = every whitespace character of str.strip(), some cs = only these")
+    F.try_add("textUniversalNewlines", "Bool", lambda: L.lean_bool(_open_text_newline(common)),
+              "_common.open_text reads with universal newlines (true: '\\r', '\\r\\n' become '\\n') or with newline='\\n' (false)")
     F.try_add("snetioFields", "List String", lambda: _strs(runtime()["snetio"]), "_common.snetio._fields")
     F.try_add("sdiskioFields", "List String", lambda: _strs(runtime()["sdiskio"]),
               "_pslinux.sdiskio._fields (the namedtuple the Linux front end uses)")
